@@ -174,6 +174,7 @@ def _run_shard(job):
     crc = 0
     samples = {}
     signal.signal(signal.SIGALRM, _on_alarm)
+    lib.MODE = 'int' if fam.name.endswith('#int') else 'float'
     for scene in fam.scenes(shard):
         signal.setitimer(signal.ITIMER_REAL, fam.scene_timeout)
         try:
